@@ -173,33 +173,35 @@ fn hist_random() -> BoxedStrategy<Hist> {
         prop_oneof![Just(0u64), 1u64..16, 1u64..200, 1u64..5000],
         prop::collection::vec(op_random(), 0..300),
     )
-        .prop_map(|(window, capacity, mut ops)| {
-            // Keep at most one cancel, and only in the last quarter, so most of the
-            // history exercises the ring rather than the refused-after-cancel path.
-            let cut = ops.len() * 3 / 4;
-            let mut seen = false;
-            let mut i = 0;
-            ops.retain(|op| {
-                let keep = match op {
-                    Op::Cancel(_) => {
-                        let k = i >= cut && !seen;
-                        if k {
-                            seen = true;
-                        }
-                        k
-                    }
-                    _ => true,
-                };
-                i += 1;
-                keep
-            });
-            Hist {
-                window,
-                capacity,
-                ops,
-            }
+        .prop_map(|(window, capacity, ops)| Hist {
+            window,
+            capacity,
+            ops: one_late_cancel(ops),
         })
         .boxed()
+}
+
+/// Keep at most one cancel, and only in the last quarter, so most of the history
+/// exercises the ring rather than the refused-after-cancel path.
+fn one_late_cancel(mut ops: Vec<Op>) -> Vec<Op> {
+    let cut = ops.len() * 3 / 4;
+    let mut seen = false;
+    let mut i = 0;
+    ops.retain(|op| {
+        let keep = match op {
+            Op::Cancel(_) => {
+                let k = i >= cut && !seen;
+                if k {
+                    seen = true;
+                }
+                k
+            }
+            _ => true,
+        };
+        i += 1;
+        keep
+    });
+    ops
 }
 
 pub fn run(ctx: &Ctx, rep: &Report) {
@@ -215,6 +217,52 @@ pub fn replay(sub: &str, case: &Value) -> Result<(), Fail> {
 }
 
 pub fn fuzz_targets() -> Vec<crate::fuzz::Target> {
-    use crate::fuzz::from_strategy;
-    vec![from_strategy("c13_ring", "C13", "random", hist_random, check_hist)]
+    use crate::fuzz::{U, from_bytes};
+    fn op(u: &mut U) -> Op {
+        match u.weighted(&[10, 5, 1, 1, 2, 2, 1]) {
+            0 => Op::Push {
+                data_len: match u.weighted(&[2, 3, 1]) {
+                    0 => u.below(4),
+                    1 => u.range(1, 40),
+                    _ => u.below(600),
+                },
+                overhead: u.below(9) as u8,
+                last: u.bool(),
+                send: u.bool(),
+            },
+            1 => Op::ResumeAt { sel: u.u16() },
+            2 => Op::Resume {
+                file: u.below(3) as u32,
+                off: u.below(100),
+            },
+            3 => Op::Advance(u.below(3) as u32),
+            4 => Op::WaitReconnect,
+            5 => Op::Ack {
+                file: u.below(2) as u32,
+                off: u.below(200),
+            },
+            _ => Op::Cancel(u.below(2) as u8),
+        }
+    }
+    vec![from_bytes(
+        "c13_ring",
+        "C13",
+        "random",
+        |data: &[u8]| {
+            let mut u = U::new(data);
+            let window = u.range(1, 4096);
+            let capacity = match u.below(4) {
+                0 => 0,
+                1 => u.range(1, 16),
+                2 => u.range(1, 200),
+                _ => u.range(1, 5000),
+            };
+            Some(Hist {
+                window,
+                capacity,
+                ops: one_late_cancel(u.vec(300, op)),
+            })
+        },
+        check_hist,
+    )]
 }
